@@ -32,5 +32,45 @@ def run(prog, chk):
     # ... nor may removal pick the wrong child slot of the parent (equal keys): the destroyed node would stay linked in the tree
     from . import c01
     c01.parent_slot_by_identity(prog, chk, "C04.j")
+    no_raw_element_copies(prog, chk, "C04.k")
     # copies re-insert into the destination's own bucket array: its size and the count used for indexing must stay in agreement
     C.bucket_index(prog, chk, "C04.i", ("HashMap", "HashSet"))
+
+
+def no_raw_element_copies(prog, chk, rid):
+    """elements live where they were constructed and change only through their own copy constructor / assignment operator: a byte copy
+    of an element (memcpy-style swap in a sort, a relocation by memmove) leaves objects that point into themselves - or that are known
+    by their address - referring to the storage of another element"""
+    import re
+    from .. import q
+    from ..facts import AnalysisBroken
+    chk.rule(rid, "WHO: in the container headers no byte copy (Memory::copy / Memory::move / memcpy / memmove) has an element, a key or a node "
+                  "payload as source or destination (the bucket array of pointers is the only raw memory these containers move)", floor=1)
+    heads = ("Array.hpp", "List.hpp", "Map.hpp", "MultiMap.hpp", "HashMap.hpp", "HashSet.hpp", "PoolList.hpp", "PoolMap.hpp")
+    fs = [f for f in prog.functions.values() if f.file.endswith(heads) and f.blocks]
+    if len(fs) < 100:
+        raise AnalysisBroken("C04.k: only %d container member functions found" % len(fs))
+    bad = []
+    n_raw = 0
+    for f in fs:
+        for c in q.calls(f):
+            if (f.nodes[c].get("callee") or "") not in ("Memory::copy", "Memory::move", "memcpy", "memmove", "__builtin_memcpy", "__builtin_memmove"):
+                continue
+            n_raw += 1
+            args = q.call_args(f, c)[:2]
+            # the bucket array: a pointer to node pointers
+            if all(re.search(r"Item \*\*$|Item \*const \*$", (f.nodes[f.strip(a)].get("t") or "")) for a in args):
+                continue
+            bad.append((f, c))
+    seen = set()
+    for f, c in bad:
+        k = (f.gname, f.nodes[c].get("l"))
+        if k in seen:
+            continue
+        seen.add(k)
+        chk.bad(rid, f, "element-moved-by-byte-copy", f.where(c),
+                "`%s` copies the bytes of an element instead of using its copy constructor / assignment: an element that holds a pointer into "
+                "itself (an inline buffer) or is registered by its address is left referring to another element's storage, and is later "
+                "destroyed at an address it was never constructed at" % q.no_casts(f.r(c))[:60], evals=2)
+    if not bad:
+        chk.ok(rid, "containers", "%d member functions scanned, %d raw copies, none touches an element" % (len(fs), n_raw), "include/nstd", "call scan over the container headers", evals=len(fs))
